@@ -119,6 +119,9 @@ class OptimizerBase(abc.ABC):
 
         Within each iteration, all vertices will be moved, starting with the one with the most influence on quality.
         Lower tolerance values"""
+        # the mesh/sketch could have been changed since this optimizer was created (or last used)
+        self.grid.points[:] = self.get_positions()
+
         driver = IterationDriver(max_iterations, tolerance)
 
         start_time = time.time()
@@ -147,6 +150,10 @@ class OptimizerBase(abc.ABC):
         return driver
 
     @abc.abstractmethod
+    def get_positions(self):
+        """Current positions of mesh vertices/sketch points"""
+
+    @abc.abstractmethod
     def backport(self) -> None:
         """Reflect optimization results back to the original mesh/sketch"""
 
@@ -157,6 +164,9 @@ class MeshOptimizer(OptimizerBase):
         grid = HexGrid.from_mesh(self.mesh)
 
         super().__init__(grid, report)
+
+    def get_positions(self):
+        return [vertex.position for vertex in self.mesh.vertices]
 
     def backport(self):
         # copy the stuff back to mesh
@@ -171,6 +181,9 @@ class SketchOptimizer(OptimizerBase):
 
         super().__init__(grid, report)
 
+    def get_positions(self):
+        return self.sketch.positions
+
     def backport(self):
         self.sketch.update(self.grid.points)
 
@@ -181,6 +194,7 @@ class SketchOptimizer(OptimizerBase):
         To include boundary points (those that can be moved along a line or a curve),
         add clamps manually before calling this method."""
         normal = self.sketch.normal
+        self.grid.points[:] = self.get_positions()
 
         for junction in self.grid.junctions:
             if not junction.is_boundary:
